@@ -413,6 +413,78 @@ fn explore(progs: &[Prog], rep: &mut Report, max_schedules: u64) -> (u64, u64) {
     (n, bad)
 }
 
+/// Pairs of threads that release the LAST TWO handles of one buffer at (as nearly as real threads allow) the same
+/// instant: one thread creates a unique string and hands a clone to its partner, both spin to a rendezvous and drop.
+/// Whatever decides "I was the last one" inside Drop is hit from both sides at once; every string is unique, so an
+/// entry whose clean-up nobody ran stays in the table until the final size check.
+fn rendezvous_drops(rep: &mut Report, pairs: usize, rounds: usize, seed: u64) {
+    use std::sync::atomic::{AtomicU64, Ordering};
+    let base_len = verif_hooks::cache_len();
+    let tag = RUN_TAG.fetch_add(1, std::sync::atomic::Ordering::SeqCst) + ((std::process::id() as u64) << 32);
+    let mut hs = vec![];
+    let bad = Arc::new(Mutex::new(Vec::<String>::new()));
+    for p in 0..pairs {
+        let slot: Arc<Mutex<Option<SharedString>>> = Arc::new(Mutex::new(None));
+        let go = Arc::new(AtomicU64::new(0));
+        let ack = Arc::new(AtomicU64::new(0));
+        {
+            let (slot, go, ack) = (slot.clone(), go.clone(), ack.clone());
+            hs.push(std::thread::spawn(move || {
+                for k in 1..=rounds as u64 {
+                    let mut bytes = content_bytes(tag, 254);
+                    bytes.extend_from_slice(&(p as u32).to_le_bytes());
+                    bytes.extend_from_slice(&k.to_le_bytes());
+                    bytes.extend_from_slice(&seed.to_le_bytes());
+                    let h = SharedString::new(bytes);
+                    *slot.lock().unwrap() = Some(h.clone());
+                    go.store(k, Ordering::Release);
+                    while ack.load(Ordering::Acquire) != k {
+                        std::hint::spin_loop();
+                    }
+                    drop(h);
+                }
+            }));
+        }
+        {
+            let bad = bad.clone();
+            hs.push(std::thread::spawn(move || {
+                for k in 1..=rounds as u64 {
+                    while go.load(Ordering::Acquire) != k {
+                        std::hint::spin_loop();
+                    }
+                    let h = slot.lock().unwrap().take();
+                    ack.store(k, Ordering::Release);
+                    match h {
+                        Some(h) => drop(h),
+                        None => bad.lock().unwrap().push("rendezvous slot empty".into()),
+                    }
+                }
+            }));
+        }
+    }
+    for h in hs {
+        if h.join().is_err() {
+            bad.lock().unwrap().push("panic: a rendezvous thread panicked".into());
+        }
+    }
+    rep.evaluations += 1;
+    rep.add("stress.rendezvous_last_two_drops", (pairs * rounds) as u64);
+    let end_len = verif_hooks::cache_len();
+    let mut errs = bad.lock().unwrap().clone();
+    if end_len != base_len {
+        errs.push(format!("table-not-empty: {} entries left after {} simultaneous last-two drops (was {})", end_len, pairs * rounds, base_len));
+    }
+    errs.dedup_by_key(|e| classify(e));
+    for e in errs {
+        rep.violation(
+            &format!("C18:stress:{}", classify(&e)),
+            &format!("rendezvous drops ({} pairs): {}", pairs, e),
+            json!({"cmd": "sstr", "mode": "stress", "seed": seed, "phase": "rendezvous"}),
+            J::Null,
+        );
+    }
+}
+
 fn stress(rep: &mut Report, threads: usize, ops: usize, contents: usize, seed: u64, inject: bool) {
     // uncontrolled run: real scheduler, random yields injected at the hooks
     fn jitter(_: &'static str) {
@@ -610,6 +682,7 @@ pub fn main(a: &Args) {
             // churn: many contents, almost nothing held, so the "not yet interned / just released" paths of new() race
             stress(&mut rep, a.usize("threads", 16), a.usize("ops", 1_000_000), 6, seed + shard + 2000, true);
             stress(&mut rep, 4, a.usize("ops", 1_000_000) / 2, 4, seed + shard + 3000, false);
+            rendezvous_drops(&mut rep, (a.usize("threads", 16) / 2).max(1), (a.usize("ops", 1_000_000) / 40).max(10_000), seed + shard);
             rep.nontrivial(1);
             rep.nontrivial(2);
             rep.sample(json!({"stress": {"threads": a.usize("threads", 16), "ops": a.usize("ops", 1_000_000)}}));
